@@ -190,6 +190,15 @@ func driveFrame(args []string) error {
 		if i%4 == 0 { // duplicated names in required, unsorted enums
 			s["required"] = []interface{}{gen.Keys[r.Intn(3)], gen.Keys[r.Intn(3)], gen.Keys[r.Intn(len(gen.Keys))], gen.Keys[r.Intn(len(gen.Keys))]}
 		}
+		if i%11 == 0 { // a pattern that is not a valid RE2 expression next to valid ones (the keyword is the caller's map)
+			pp, _ := s["patternProperties"].(map[string]interface{})
+			if pp == nil {
+				pp = map[string]interface{}{}
+				s["patternProperties"] = pp
+			}
+			pp["^(?!name).+$"] = map[string]interface{}{"type": "string"}
+			pp["^a"] = map[string]interface{}{}
+		}
 		if i%2 == 0 { // required members that carry a default, at every level (and instances that omit them)
 			requireDefaulted(r, s)
 		}
